@@ -14,20 +14,22 @@ import FluteModel.Props.C04Multi
 namespace Flute.Props.C04.MultiWhole
 open Flute Flute.Recv Flute.Recv.AllObj Flute.Recv.Whole Flute.Props.C04 Flute.Props.C04.Whole Flute.MultiRecv
 
+variable {P : ObjRecv.Params}
+
 /-- `WInv` is preserved by EVERY admissible call of the session model (path's `winv_step` is the case of
     a call that comes from bytes) -/
-theorem winv_op (X : Interfaces) (cfg : Config) (hc : cfg.maxCache < 2 ^ 63) (s s' : Recv.State Full.Any) (op : Recv.Op)
+theorem winv_op (X : Interfaces P) (cfg : Config) (hc : cfg.maxCache < 2 ^ 63) (s s' : Recv.State (Full.Any P)) (op : Recv.Op)
     (r : Recv.Res) (evs : List Ev) (hop : OpOK op)
     (hpk : ∀ p now ans, op = .data (.pkt p) now ans → X.PktOK (Full.toPkt p))
     (hansq : ∀ d now ans, op = .data d now ans → ∀ fdt u, ans = .ok fdt u → FdtQ X fdt)
-    (h : Recv.step Full.iface s op = .ok (s', r, evs)) (hs : WInv X cfg s) : WInv X cfg s' := by
-  refine ⟨step_good Full.iface Full.completeSound s s' _ r evs hop h hs.good, ?_, ?_, ?_,
-    by rw [step_cfg Full.iface s s' _ r evs h]; exact hs.cfg⟩
-  · refine step_objsAll Full.iface (ObjOK X) (FdtQ X) (fun o id f hq ho => attach_ok X o id f hq ho) s s' _ r evs
+    (h : Recv.step (Full.iface P) s op = .ok (s', r, evs)) (hs : WInv X cfg s) : WInv X cfg s' := by
+  refine ⟨step_good (Full.iface P) (Full.completeSound P) s s' _ r evs hop h hs.good, ?_, ?_, ?_,
+    by rw [step_cfg (Full.iface P) s s' _ r evs h]; exact hs.cfg⟩
+  · refine step_objsAll (Full.iface P) (ObjOK X) (FdtQ X) (fun o id f hq ho => attach_ok X o id f hq ho) s s' _ r evs
       (fun toi => new_ok X toi _ (by rw [hs.cfg]; exact hc)) ?_ hs.inst hansq h hs.objs
     intro p now ans hop' o ho
     exact push_ok X p (hpk p now ans hop') o ho
-  · refine (step_all Full.iface (InstQ (FdtQ X)) s s' _ r evs ?_ ?_ ?_ ?_ h hs.inst).1
+  · refine (step_all (Full.iface P) (InstQ (FdtQ X)) s s' _ r evs ?_ ?_ ?_ ?_ h hs.inst).1
     · intro f v hf
       unfold FdtRecv.noteFti
       split
@@ -35,21 +37,23 @@ theorem winv_op (X : Interfaces) (cfg : Config) (hc : cfg.maxCache < 2 ^ 63) (s 
       · exact hf
     · intro p now ans id _ _ inst hi; simp [FdtRecv.new] at hi
     · intro p now ans hop' _ id _ f hf
-      exact push_instQ Full.iface (FdtQ X) ans (hansq _ now ans hop') f p now hf
+      exact push_instQ (Full.iface P) (FdtQ X) ans (hansq _ now ans hop') f p now hf
     · intro f f' hf hu inst hi
       rw [updateExpired_inst f f' _ hu] at hi; exact hf inst hi
-  · refine step_fobj Full.iface (ObjOK X) s s' _ r evs (new_ok X 0 _ (by decide)) ?_ h hs.fobjs
+  · refine step_fobj (Full.iface P) (ObjOK X) s s' _ r evs (new_ok X 0 _ (by decide)) ?_ h hs.fobjs
     intro p now ans hop' _ o ho
     exact push_ok X p (hpk p now ans hop') o ho
 
+variable (P) (D : ObjRecv.DzOK P)
+
 /-- what a call into a session is given, admissible for the whole-call invariant -/
 def MEnvOK (i : REnv) : Prop :=
-  TimeSane i.now ∧ i.pkt.WF ∧ ObjRecv.WfPkt (Full.toPkt i.pkt) ∧ AnsOK interfaces i.ans
+  TimeSane i.now ∧ i.pkt.WF ∧ ObjRecv.WfPkt (Full.toPkt i.pkt) ∧ AnsOK (interfaces P D) i.ans
 
 /-- the session machine of the MultiReceiver, instantiated with the full object model, is total ON THE
     WHOLE-CALL INVARIANT: a call keeps `WInv` (hence: no object fault) and does not panic -/
 theorem recvMachine_total_whole (cfg : Config) (hc : cfg.maxCache < 2 ^ 63) (timeout : Nat) :
-    (recvMachine Full.iface cfg timeout).Total (fun rs => WInv interfaces cfg rs.st) MEnvOK (fun o => o.res ≠ none) where
+    (recvMachine (Full.iface P) cfg timeout).Total (fun rs => WInv (interfaces P D) cfg rs.st) (MEnvOK P D) (fun o => o.res ≠ none) where
   init := by
     intro t k
     exact ⟨by constructor <;> (intro f hf; simp [recvMachine, State.init] at hf),
@@ -62,9 +66,9 @@ theorem recvMachine_total_whole (cfg : Config) (hc : cfg.maxCache < 2 ^ 63) (tim
     have hwf : ({ p.body.pkt with closeSession := p.close } : Recv.Pkt).WF := hwf0
     have hop : OpOK (.data (.pkt { p.body.pkt with closeSession := p.close }) p.body.now p.body.ans) :=
       ⟨hn, fun q hq => by injection hq with hq; subst hq; exact hwf⟩
-    obtain ⟨x, hx⟩ := step_total Full.iface Full.completeSound s.st _ hop hs.good
+    obtain ⟨x, hx⟩ := step_total (Full.iface P) (Full.completeSound P) s.st _ hop hs.good
     obtain ⟨s', r, evs⟩ := x
-    have hw := winv_op interfaces cfg hc s.st s' _ r evs hop
+    have hw := winv_op (interfaces P D) cfg hc s.st s' _ r evs hop
       (fun q now ans hq => by
         simp only [Recv.Op.data.injEq, Parsed.pkt.injEq] at hq
         rw [← hq.1]; exact hpk0)
@@ -72,18 +76,18 @@ theorem recvMachine_total_whole (cfg : Config) (hc : cfg.maxCache < 2 ^ 63) (tim
         simp only [Recv.Op.data.injEq] at hq
         rw [← hq.2.2]; exact hans)
       hx hs
-    have hx' : Recv.push Full.iface s.st { p.body.pkt with closeSession := p.close } p.body.now p.body.ans =
+    have hx' : Recv.push (Full.iface P) s.st { p.body.pkt with closeSession := p.close } p.body.now p.body.ans =
         .ok (s', r, evs) := hx
     simp only [recvMachine, hx']
     exact ⟨hw, by simp⟩
   cleanup := by
     intro t i s hs henv
     have hop : OpOK (.cleanup i.now (i.stale s.key)) := henv.1
-    obtain ⟨x, hx⟩ := cleanup_total Full.iface s.st i.now (i.stale s.key) henv.1 hs.good
+    obtain ⟨x, hx⟩ := cleanup_total (Full.iface P) s.st i.now (i.stale s.key) henv.1 hs.good
     obtain ⟨s', evs⟩ := x
-    have hstep : Recv.step Full.iface s.st (.cleanup i.now (i.stale s.key)) = .ok (s', .ok, evs) := by
+    have hstep : Recv.step (Full.iface P) s.st (.cleanup i.now (i.stale s.key)) = .ok (s', .ok, evs) := by
       simp only [Recv.step, hx]
-    have hw := winv_op interfaces cfg hc s.st s' _ .ok evs hop
+    have hw := winv_op (interfaces P D) cfg hc s.st s' _ .ok evs hop
       (fun q now ans hq => by cases hq) (fun d now ans hq => by cases hq) hstep hs
     simp only [recvMachine, hx]
     exact ⟨hw, by simp⟩
@@ -93,12 +97,12 @@ theorem recvMachine_total_whole (cfg : Config) (hc : cfg.maxCache < 2 ^ 63) (tim
 
 /-- admissible byte-level call of the MultiReceiver: sane `now`, admissible XML-parser answer -/
 def BOpOK : MultiRecv.BOp → Prop
-  | .push _ _ now ans => TimeSane now ∧ AnsOK interfaces ans
+  | .push _ _ now ans => TimeSane now ∧ AnsOK (interfaces P D) ans
   | .cleanup now _ => TimeSane now
   | .drop now => TimeSane now
   | _ => True
 
-theorem default_env_ok (now : Int) (hn : TimeSane now) (stale : Key → Stale) : MEnvOK (envNoPkt now stale) := by
+theorem default_env_ok (now : Int) (hn : TimeSane now) (stale : Key → Stale) : (MEnvOK P D) (envNoPkt now stale) := by
   have hdef : (default : Recv.Pkt).WF := by
     constructor <;> intro x hx <;> cases hx
   refine ⟨hn, hdef, ?_, ?_⟩
@@ -106,11 +110,11 @@ theorem default_env_ok (now : Int) (hn : TimeSane now) (stale : Key → Stale) :
   · intro fdt u h; cases h
 
 theorem parsed_env_ok (d : List UInt8) (p : Alc.AlcPkt) (hp : Alc.parseAlcPkt (d.map UInt8.toNat) = .ok p) (now : Int)
-    (hn : TimeSane now) (ans : FdtAns) (hans : AnsOK interfaces ans) :
-    MEnvOK (recvEnv now ans (d.map UInt8.toNat) p) :=
-  ⟨hn, ofAlc_wf d p hp, interfaces.parsed_pkt_ok d p hp, hans⟩
+    (hn : TimeSane now) (ans : FdtAns) (hans : AnsOK (interfaces P D) ans) :
+    (MEnvOK P D) (recvEnv now ans (d.map UInt8.toNat) p) :=
+  ⟨hn, ofAlc_wf d p hp, (interfaces P D).parsed_pkt_ok d p hp, hans⟩
 
-theorem bop_env_ok (b : MultiRecv.BOp) (h : BOpOK b) : OpEnvOK MEnvOK b.abs := by
+theorem bop_env_ok (b : MultiRecv.BOp) (h : (BOpOK P D) b) : OpEnvOK (MEnvOK P D) b.abs := by
   cases b with
   | push ep d now ans =>
     simp only [MultiRecv.BOp.abs, parsedOf]
@@ -119,9 +123,9 @@ theorem bop_env_ok (b : MultiRecv.BOp) (h : BOpOK b) : OpEnvOK MEnvOK b.abs := b
     | err => simp [OpEnvOK]
     | ok p =>
       simp only [OpEnvOK]
-      exact parsed_env_ok d p hp now h.1 ans h.2
-  | cleanup now st => exact default_env_ok now h st
-  | drop now => exact default_env_ok now h _
+      exact parsed_env_ok P D d p hp now h.1 ans h.2
+  | cleanup now st => exact default_env_ok P D now h st
+  | drop now => exact default_env_ok P D now h _
   | _ => trivial
 
 /-- **multi_push_total_whole.**  `MultiReceiver::push` on bytes, sessions = receivers with the full object
@@ -130,26 +134,26 @@ theorem bop_env_ok (b : MultiRecv.BOp) (h : BOpOK b) : OpEnvOK MEnvOK b.abs := b
     registry objects and FDT objects alike - has faulted (panic or hang inside `ObjectReceiver::push` /
     `attach_fdt`): the object-fault invariant holds in every session. -/
 theorem multi_push_total_whole (cfg : Config) (hc : cfg.maxCache < 2 ^ 63) (timeout : Nat) (b : Bool)
-    (hist : List MultiRecv.BOp) (hhist : ∀ o ∈ hist, BOpOK o) (hlen : hist.length + 1 < 2 ^ 64) (ep : Flute.Endpoint)
-    (d : List UInt8) (now : Int) (hn : TimeSane now) (ans : FdtAns) (hans : AnsOK interfaces ans) :
-    let M := recvMachine Full.iface cfg timeout
+    (hist : List MultiRecv.BOp) (hhist : ∀ o ∈ hist, (BOpOK P D) o) (hlen : hist.length + 1 < 2 ^ 64) (ep : Flute.Endpoint)
+    (d : List UInt8) (now : Int) (hn : TimeSane now) (ans : FdtAns) (hans : AnsOK (interfaces P D) ans) :
+    let M := recvMachine (Full.iface P) cfg timeout
     let s := MultiRecv.run M (MultiRecv.State.new b) (hist.map MultiRecv.BOp.abs)
     ∃ s' r, pushBytes M (recvEnv now ans) s ep (d.map UInt8.toNat) = .ok (s', r) ∧ r ≠ MultiRecv.Res.panic ∧
       (∀ o ∈ newOuts s s', o.2.res ≠ none) ∧
       (∀ e ∈ s'.table, hasFault e.2.st = false) ∧ (∀ e ∈ s.table, hasFault e.2.st = false) := by
   intro M s
-  have hops : ∀ op ∈ hist.map MultiRecv.BOp.abs, OpEnvOK MEnvOK op := by
-    intro op hop; obtain ⟨o, ho, rfl⟩ := List.mem_map.1 hop; exact bop_env_ok o (hhist o ho)
-  obtain ⟨s', r, h1, h2, h3, h4⟩ := Flute.Props.C04.Multi.multi_push_total_gen M _ MEnvOK _
-    (recvMachine_total_whole cfg hc timeout) b (hist.map MultiRecv.BOp.abs) hops (by simpa using hlen)
-    (recvEnv now ans) ep d (by intro p hp; exact parsed_env_ok d p hp now hn ans hans)
-  have hbefore : MultiRecv.TInv (fun rs : RSess Full.Any => WInv interfaces cfg rs.st) (fun o : ROut => o.res ≠ none) s :=
-    tinv_run M _ MEnvOK _ (recvMachine_total_whole cfg hc timeout) (hist.map MultiRecv.BOp.abs) _ hops
+  have hops : ∀ op ∈ hist.map MultiRecv.BOp.abs, OpEnvOK (MEnvOK P D) op := by
+    intro op hop; obtain ⟨o, ho, rfl⟩ := List.mem_map.1 hop; exact bop_env_ok P D o (hhist o ho)
+  obtain ⟨s', r, h1, h2, h3, h4⟩ := Flute.Props.C04.Multi.multi_push_total_gen M _ (MEnvOK P D) _
+    (recvMachine_total_whole P D cfg hc timeout) b (hist.map MultiRecv.BOp.abs) hops (by simpa using hlen)
+    (recvEnv now ans) ep d (by intro p hp; exact parsed_env_ok P D d p hp now hn ans hans)
+  have hbefore : MultiRecv.TInv (fun rs : RSess (Full.Any P) => WInv (interfaces P D) cfg rs.st) (fun o : ROut => o.res ≠ none) s :=
+    tinv_run M _ (MEnvOK P D) _ (recvMachine_total_whole P D cfg hc timeout) (hist.map MultiRecv.BOp.abs) _ hops
       (MultiRecv.tinv_new _ _ b)
   refine ⟨s', r, h1, h2, h3, ?_, ?_⟩
   · intro e he
-    exact hasFault_false interfaces e.2.st (h4.1 e he).objs (h4.1 e he).fobjs
+    exact hasFault_false (interfaces P D) e.2.st (h4.1 e he).objs (h4.1 e he).fobjs
   · intro e he
-    exact hasFault_false interfaces e.2.st (hbefore.1 e he).objs (hbefore.1 e he).fobjs
+    exact hasFault_false (interfaces P D) e.2.st (hbefore.1 e he).objs (hbefore.1 e he).fobjs
 
 end Flute.Props.C04.MultiWhole
